@@ -72,3 +72,17 @@ func VerifTShard[T comparable](l TLocker[T], key T) int {
 	}
 	return 0
 }
+
+// VerifTGroupOrder returns, for a generic group locker, the shard indexes in the order in which a
+// multi-key call with these keys visits them, and the keys handed to each shard (ok=false for other lockers).
+func VerifTGroupOrder[T comparable](l TLocker[T], keys []T) (idx []int, per [][]T, ok bool) {
+	x, isGrp := l.(*TKeyLockerGrp[T])
+	if !isGrp {
+		return nil, nil, false
+	}
+	for _, m := range x.calculateSortedMultiKeys(keys) {
+		idx = append(idx, m.index)
+		per = append(per, append([]T{}, m.ks...))
+	}
+	return idx, per, true
+}
